@@ -92,6 +92,15 @@ func c17Gen(rng *verifsim.RNG, idx int, tier string) *Plan {
 			p.Actions = append(p.Actions, a)
 		}
 	}
+	if rng.Bool(0.15) {
+		// the debug address is busy at first (a previous instance still going
+		// away): the server keeps trying every 3 s and then serves
+		p.Opt = map[string]int64{"listen_failures": int64(rng.Range(1, 4))}
+		p.Faults = append(p.Faults, Fault{Seam: "http.listen", Count: int(p.Opt["listen_failures"]), Err: "EADDRINUSE"})
+		if p.Horizon < 14*nsSec {
+			p.Horizon = 14 * nsSec
+		}
+	}
 	switch rng.Intn(5) {
 	case 0:
 		// a scrape stalled inside a sysctl read for a long fake time: the daemon keeps serving
@@ -609,6 +618,39 @@ func c17Oracle(info *runInfo, res *verifsim.Result) {
 					c09Answered2(res, h, ifn, stopT)
 				}
 			}
+		}
+	}
+	// the debug server comes up: at once, or 3 s after each failed listen
+	if SimRealHTTP && cfg.Debug != nil && cfg.Debug.Address != "" {
+		k := info.plan.Opt["listen_failures"]
+		var ready *verifsim.Event
+		for i := range info.ev {
+			e := &info.ev[i]
+			if e.K == "task.ready" && strings.HasPrefix(e.S, "debug HTTP server") {
+				ready = e
+				break
+			}
+		}
+		stopT, _, _ := stopInstant(h, 0)
+		want := k * 3 * nsSec
+		// (the server may be going down before that, whether asked to or because
+		// another task failed)
+		for i := range info.ev {
+			e := &info.ev[i]
+			if (e.K == "serve.exit" || (e.K == "task.exit" && e.Err != "")) && (stopT == 0 || e.T < stopT) {
+				stopT = e.T
+			}
+		}
+		if stopT == 0 || stopT > want+nsMs {
+			switch {
+			case ready == nil:
+				res.Violate("C17.block", "debug-server-never-ready", "the debug HTTP server never came up although its address was free from %s on (%d failed listen attempts)", ms(want), k)
+			case ready.T > want+nsMs:
+				res.Violate("C17.block", "debug-server-late", "the debug HTTP server came up at %s; its address was free from %s on (%d failed listen attempts, one retry every 3 s)", ms(ready.T), ms(want), k)
+			}
+		}
+		if k > 0 {
+			res.Probe("debug_address_busy_at_first")
 		}
 	}
 	res.Nontrivial = judged >= 1
